@@ -31,7 +31,8 @@ type leakCase struct {
 	Max     int    // routine limit (0 = none)
 	Calls   int    // repetitions
 	Variant int
-	End     int // how the search's context ends: 0 cancel(), 1 its deadline passes (context.WithTimeout), 2 its parent is cancelled
+	End     int // how the search's context ends: 0 cancel(), 1 its deadline passes (context.WithTimeout), 2 its parent is cancelled,
+	// 3 it is cancelled already when Run is called (the channel Run returns must still be closed)
 }
 
 func (c leakCase) String() string {
@@ -45,7 +46,7 @@ func (c leakCase) String() string {
 		return fmt.Sprintf("limit %d: %d ConcatO searches of %d elements, each on its own child context that is cancelled afterwards, idle %dms in between", c.Max, c.Calls, c.N, c.Variant)
 	}
 	return fmt.Sprintf("%s n=%d take=%d max=%d calls=%d variant=%d context-ends-by=%s", c.Kind, c.N, c.Take, c.Max, c.Calls, c.Variant,
-		[]string{"cancel()", "deadline", "cancel of the parent"}[c.End%3])
+		[]string{"cancel()", "deadline", "cancel of the parent", "cancel() before Run is called"}[c.End%4])
 }
 
 type leakObs struct {
@@ -139,6 +140,9 @@ func goroutineStacks() string {
 
 func observeLeak(c leakCase) *leakObs {
 	o := &leakObs{}
+	if c.Kind == "gomini-leftrec" && c.Variant%4 != 3 {
+		c.Take = 0 // variants 0..2 never answer: there is nothing to read before the context ends
+	}
 	runtime.GC()
 	time.Sleep(10 * time.Millisecond)
 	o.Base = runtime.NumGoroutine()
@@ -305,7 +309,9 @@ func observeLeak(c leakCase) *leakObs {
 	default:
 		for k := 0; k < c.Calls; k++ {
 			ctx, cancel := context.WithCancel(context.Background())
-			switch c.End % 3 {
+			switch c.End % 4 {
+			case 3:
+				cancel()
 			case 1: // the context ends because its deadline passes; cancel() below then comes too late to change ctx.Err()
 				ctx, cancel = context.WithTimeout(context.Background(), time.Duration(40+15*k)*time.Millisecond)
 			case 2: // the search runs on a child; it is the parent that gets cancelled
@@ -436,7 +442,7 @@ func observeLeak(c leakCase) *leakObs {
 			if c.Take >= 0 && got >= c.Take && o.How == "closed" {
 				o.How = "cancelled"
 			}
-			if c.End%3 == 1 {
+			if c.End%4 == 1 {
 				select { // let the deadline pass
 				case <-ctx.Done():
 				case <-time.After(3 * time.Second):
@@ -488,7 +494,8 @@ func genLeakCases(cfg *Config, prop string) []leakCase {
 			leakCase{Kind: "gomini-leftrec", Take: 0, Max: 0, Calls: 2, Variant: 0, End: 1},
 			leakCase{Kind: "gomini-infinite", Take: 1, Max: 0, Calls: 1, End: 1}, leakCase{Kind: "gomini-infinite", Take: 0, Max: 0, Calls: 1, Variant: 2, End: 1},
 			leakCase{Kind: "gomini-infinite", Take: 3, Max: 4, Calls: 1, End: 2}, leakCase{Kind: "gomini-ifte", Take: 1, Max: 0, Calls: 3, Variant: 1, End: 1},
-			leakCase{Kind: "gomini-finite", N: 6, Take: 2, Max: 0, Calls: 3, End: 1}, leakCase{Kind: "gomini-elserec", Take: 0, Max: 0, Calls: 2, End: 1},
+			leakCase{Kind: "gomini-finite", N: 6, Take: 2, Max: 0, Calls: 3, End: 1}, leakCase{Kind: "gomini-finite", N: 4, Take: -1, Max: 0, Calls: 2, End: 3},
+			leakCase{Kind: "gomini-finite", N: 4, Take: -1, Max: 1, Calls: 2, End: 3}, leakCase{Kind: "gomini-infinite", Take: -1, Max: 0, Calls: 1, End: 3}, leakCase{Kind: "gomini-elserec", Take: 0, Max: 0, Calls: 2, End: 1},
 			leakCase{Kind: "gomini-traced", Take: 3, Max: 0, Calls: 3, Variant: 0}, leakCase{Kind: "gomini-traced", Take: 0, Max: 4, Calls: 2, Variant: 1},
 			leakCase{Kind: "gomini-open-streams", Take: 0, Max: 0, Calls: 5, Variant: 0}, leakCase{Kind: "gomini-open-streams", Take: 1, Max: 2, Calls: 5, Variant: 1})
 	} else {
@@ -521,7 +528,7 @@ func genLeakCases(cfg *Config, prop string) []leakCase {
 			case 0:
 				cases = append(cases, leakCase{Kind: pick(r, []string{"conc-conj", "conc-conjzzz", "conc-disj", "conc-noorder"}), N: 2 + r.Intn(5), Calls: 10 + r.Intn(40), Variant: r.Intn(4)})
 			case 1:
-				cases = append(cases, leakCase{Kind: "gomini-finite", N: 2 + r.Intn(8), Take: r.Intn(5) - 1, Max: pick(r, []int{0, 0, 2, 5}), Calls: 1 + r.Intn(5)})
+				cases = append(cases, leakCase{Kind: "gomini-finite", N: 2 + r.Intn(8), Take: r.Intn(5) - 1, Max: pick(r, []int{0, 0, 2, 5}), Calls: 1 + r.Intn(5), End: pick(r, []int{0, 0, 1, 2, 3})})
 			case 2:
 				if r.Intn(3) == 0 {
 					cases = append(cases, leakCase{Kind: "gomini-leftrec", Take: r.Intn(3), Max: pick(r, []int{0, 0, 10, 30}), Calls: 1 + r.Intn(3), Variant: r.Intn(4), End: r.Intn(3)})
@@ -590,6 +597,9 @@ func runLeak(cfg *Config, prop string) *Report {
 		rep.CaseObs = append(rep.CaseObs, obs)
 		rep.sample(desc + " => " + obs)
 		if prop == "C11" {
+			if c.End%4 == 3 && o.How == "timeout" {
+				rep.violate(i, "channel-never-closed", desc, "the context was cancelled before Run was called; the channel Run returned was not closed within 8s (a `for range` over it never ends): "+obs)
+			}
 			if o.Later > o.Base {
 				kind := "goroutines-leaked"
 				if o.Growing {
